@@ -20,9 +20,9 @@ RULE = ("(a) reverse complement of lists of DNA strings over {A,C,G,T,N,a,c,g,t,
         "Non-trivial: a string with at least two different letters that is not its own reverse complement; for translation at least two codons.")
 ASSUMPTIONS = [
     "Output case is compared case-insensitively (the property fixes which letters are exchanged, not the case).",
-    "Input that is already encoded with a DNA alphabet is re-targeted by the library before translation and may raise; the generated translation inputs are plain text.",
+    "Translation input that is already encoded with a DNA alphabet (ACGT, ACGTN) is re-targeted by the library to the codon alphabet and is refused when that is not possible: for such input the oracle is 'the same protein as for the text, or an exception' (counted under raised_allowed), never a different protein.",
 ]
-REQUIRED_CLASSES = ["lower-case", "contains-N", "empty-row", "ascii", "ACGT", "ACGTn", "minus-strand", "length-one-interval", "stop-codon", "all-64-codons", "many-intervals", "genomic"]
+REQUIRED_CLASSES = ["lower-case", "contains-N", "empty-row", "ascii", "ACGT", "ACGTn", "minus-strand", "length-one-interval", "stop-codon", "all-64-codons", "many-intervals", "genomic", "translate-encoded-input"]
 BOUNDS = {"quick": "revcomp: all 11110 strings of length <= 4 in ASCII and ACGTn; translation: 64 codons + 4096 pairs + 4096 strided triples; 300 sampled per family",
           "thorough": "same exhaustive cores in all three encodings; all 262144 codon triples; 10000 sampled per family"}
 BUDGET_S = {"quick": 200, "thorough": 1500}
@@ -73,6 +73,8 @@ def classify(case):
     elif k == "translate":
         if any("*" in "".join(CODON[r[i:i + 3].upper()] for i in range(0, len(r), 3)) for r in rows):
             cl.append("stop-codon")
+        if case.get("encoded"):
+            cl.append("translate-encoded-input")
         nontrivial = any(len(r) >= 6 for r in rows)
     return nontrivial, cl
 
@@ -143,6 +145,19 @@ def check(case, stats=None):
             got = r.tolist()
             if got != want:
                 return [Failure("C14:translation", {"rows": rows, "expected": want, "actual": got})]
+            if case.get("encoded"):
+                # the same rows already encoded with a DNA alphabet: the result must be the same protein, or the call must refuse
+                # (the library re-targets encoded input to the codon alphabet and rejects what it cannot re-target)
+                enc = {"ACGT": bnp.DNAEncoding, "ACGTN": bnp.encodings.ACGTnEncoding}[case["encoded"]]
+                xe = bnp.as_encoded_array([r_.upper() for r_ in rows], enc)
+                try:
+                    pe = bnp.sequence.translate_dna_to_protein(xe).tolist()
+                except Exception as ex:
+                    pe = None
+                    if stats is not None:
+                        stats.raised_allowed["translate-encoded-input:" + type(ex).__name__] += 1
+                if pe is not None and pe != want:
+                    return [Failure("C14:translation-encoded-input", {"encoding": case["encoded"], "rows": rows, "expected": want, "actual": pe})]
             if case.get("entry"):
                 e = bnp.SequenceEntry(["n%d" % i for i in range(len(rows))], list(rows))
                 p = bnp.sequence.translate_dna_to_protein(e)
@@ -180,6 +195,8 @@ def task_codons(stats, known_open, triples_stride, offset=0):
     def cases():
         if offset == 0:
             yield {"kind": "translate", "rows": codons, "entry": True}
+            yield {"kind": "translate", "rows": codons, "encoded": "ACGT"}
+            yield {"kind": "translate", "rows": codons, "encoded": "ACGTN"}
             yield {"kind": "translate", "rows": [c.lower() for c in codons]}
             for c in codons:
                 yield {"kind": "translate", "rows": [c]}
@@ -228,7 +245,7 @@ def sampled_case(draw, kind, maxlen):
         return {"kind": kind, "seqs": seqs, "ivs": ivs}
     codon = st.text(alphabet="TCAGtcag", min_size=3, max_size=3)
     rows = draw(st.lists(st.lists(codon, max_size=max(1, maxlen // 3)).map("".join), min_size=1, max_size=6))
-    return {"kind": "translate", "rows": rows, "entry": draw(st.booleans())}
+    return {"kind": "translate", "rows": rows, "entry": draw(st.booleans()), "encoded": draw(st.sampled_from([None, "ACGT", "ACGTN"]))}
 
 
 def task_sampled(stats, known_open, kind, n, seed, maxlen):
